@@ -20,7 +20,10 @@ FOL_EXTRA = [
     ("theory", "forall X not p(X)."), ("theory", "not forall X p(X)."), ("theory", "not not p."), ("theory", "forall X exists Y t(X, Y)."),
     ("theory", "forall X (exists Y (t(X, Y)))."), ("theory", "forall X X$i X$s (X = X$i)."), ("theory", "p -> q -> r."), ("theory", "(p -> q) -> r."),
     ("theory", "p -> (q -> r)."), ("theory", "p <- q <- r."), ("theory", "p <- (q <- r)."), ("theory", "p <-> q <-> r."), ("theory", "p <-> (q <-> r)."),
-    ("theory", "p -> q <- r."), ("theory", "p <- q -> r."), ("theory", "p and q or r."), ("theory", "p or q and r."), ("theory", "(p or q) and r."),
+    ("theory", "p -> q <- r."), ("theory", "p <- q -> r."), ("theory", "(p <-> q) <- r."), ("theory", "p <-> (q <- r)."), ("theory", "(p -> q) <- r."),
+    ("theory", "(p <- q) -> r."), ("theory", "(p <-> q) -> r."), ("theory", "p <- (q <-> r)."), ("theory", "(p <- q) <-> r."), ("theory", "p -> (q <-> r)."),
+    ("theory", "exists X$s (X$s = a)."), ("theory", "forall S$s (S$s != b)."), ("theory", "exists X$s Y$s (X$s < Y$s)."), ("theory", "forall X$g (X$g = 1)."),
+    ("theory", "exists _X (_X = 1)."), ("theory", "forall X (c$i = X)."), ("theory", "forall X (a = X)."), ("theory", "forall X (#inf < X)."), ("theory", "forall X (1 < X)."), ("theory", "p and q or r."), ("theory", "p or q and r."), ("theory", "(p or q) and r."),
     ("theory", "p and (q or r)."), ("theory", "not p and q."), ("theory", "not (p and q)."), ("theory", "forall X p(X) and q."), ("theory", "forall X (p(X) and q)."),
     ("theory", "forall X p(X) -> q."), ("theory", "(forall X p(X)) -> q."), ("theory", "p -> forall X q(X)."), ("theory", "p and forall X q(X) and r."),
     ("theory", "1 < 2 < 3."), ("theory", "X = Y = Z."), ("theory", "-1 < X$i."), ("theory", "- 1 < X$i."), ("theory", "-(1) < X$i."), ("theory", "-X$i < 1."),
